@@ -665,3 +665,45 @@ def check_air_full(prop, tier, repo, verif):
     res['wall_s'] = round(time.time() - t0, 1)
     res['checker_cmd'] = 'tools/airfull (built against the current tree)'
     return res
+
+
+def check_asm_history(prop, tier, repo, verif):
+    t0 = time.time()
+    res = {'unit': 'bounded:asm_history', 'engine': 'bounded run of the real assembler and processor (tools/asmprobe, release build with debug assertions)', 'status': 'ok',
+           'failures': [], 'undecided': [], 'bounded': True,
+           'bound': '6060 generated programs (all call chains main -> P1 -> P2 -> leaf of depth 1..3 over hop kinds exec / call / procref+dynexec / procref+dyncall / syscall and callee locations local / imported / re-exported once / re-exported twice under an alias; 1029 modules in 4 libraries, a 4-procedure kernel): every program assembles and EXECUTES (no missing procedure) on a fresh assembler and on a long-lived one; same MAST root and code block table on a fresh assembler vs. one instance that compiled the others before (6 orders), under every permutation of the 4 libraries, and whether a procedure is reached directly or through re-exports; 545 invalid / boundary sources are rejected with an error (no panic) and their valid neighbours accepted, also on a long-lived instance; 8 probes for history dependence through the procedure cache'}
+    binp, err = build_tool(repo, verif, 'asmprobe', release=True)
+    if binp is None:
+        res['status'] = 'undecided'
+        res['undecided'].append('asmprobe does not build against the current tree: ' + err)
+        return res
+    p = subprocess.run([binp], stdout=subprocess.PIPE, stderr=subprocess.PIPE, text=True)
+    m = re.search(r'SUMMARY failed_checks=(\d+) probes=(\d+)', p.stdout)
+    if not m:
+        res['status'] = 'undecided'
+        res['undecided'].append('asmprobe gave no summary (panic / abort?): ' + (p.stdout + p.stderr)[-500:])
+        return res
+    seen = set()
+    for ln in p.stdout.split('\n'):
+        mm = re.match(r'CHECKFAIL (.*?) \| (.*?) \| (.*)', ln)
+        if mm:
+            cid, cnt, first = mm.groups()
+            res['failures'].append({'obligation': '%s/bounded/asm_history#check:%s' % (prop, cid.strip()), 'message': 'assembler check (%s) failed: %s cases' % (cid.strip(), cnt),
+                                    'rendered': ln[:1500], 'origins': ['assembly/src/assembler/context.rs', 'assembly/src/assembler/procedure_cache.rs', 'assembly/src/assembler/mod.rs', 'assembly/src/assembler/module_provider.rs'],
+                                    'failing_input': {'check': cid.strip(), 'failed': cnt, 'first_case': first[:900], 'cmd': '.cache/target/release/asmprobe   (ad hoc sources: asmprobe --try [--kernel K] SRC...)'}})
+            continue
+        mm = re.match(r'PROBE (.*?) \| (.*)', ln)
+        if mm:
+            pid, text = mm.groups()
+            slug = re.sub(r'[^A-Za-z0-9:]+', '-', pid).strip('-')[:70]
+            if slug in seen:
+                continue
+            seen.add(slug)
+            res['failures'].append({'obligation': '%s/bounded/asm_history#probe:%s' % (prop, slug), 'message': 'assembler probe %s deviates' % pid,
+                                    'rendered': text[:1500], 'origins': ['assembly/src/assembler', 'assembly/src/ast/parsers'],
+                                    'failing_input': {'probe': pid, 'detail': text[:900], 'cmd': '.cache/target/release/asmprobe'}})
+    if res['failures']:
+        res['status'] = 'fail'
+    res['wall_s'] = round(time.time() - t0, 1)
+    res['checker_cmd'] = 'tools/asmprobe (built against the current tree)'
+    return res
